@@ -240,6 +240,9 @@ def evaluate(built, focus):
                 found.append(("C13", "documents differ only in ignored attributes but the script is %r" % (raw,)))
         # C07 on the matching (evaluated before the script was generated)
         found += c["c07"]
+        # a similarity-oracle law that the theorems assume fails on a value CPython produced
+        for msg in c.get("laws", []):
+            found.append((focus, "premise of the theorems (similarity-oracle law) fails: " + msg))
         for prop, msg in found:
             if prop == focus:
                 viols.append({"what": msg, "replay": {"left": desc["left"], "right": desc["right"], "opts": desc["opts"],
